@@ -9,7 +9,7 @@ from props import c03
 
 OBLIGATIONS = dict(
     prop_file='Properties/C09.v',
-    glue=['Glue/CoreGlue.v', 'Glue/Pin_p_mask.v', 'Glue/EinopsGlue.v'],
+    glue=['Glue/CoreGlue.v', 'Glue/Pin_p_mask.v', 'Glue/EinopsGlueBase.v', 'Glue/EinopsGlueMask.v'],
     extra=['Model/CoreCheck.vo'],
     gen_items=['g_euclid_mask_onehot', 'g_cosine_mask_onehot', 'g_euclid_ema', 'g_cosine_ema', 'p_mask', 'p_kmeans', 'p_expire', 'pr_vq'],
 )
